@@ -609,7 +609,12 @@ func isOpaquePred(g *ssa.Function) bool {
 		return true
 	}
 	if recv := g.Signature.Recv(); recv != nil && strings.HasSuffix(recv.Type().String(), "parser.FontConfig") {
-		return true
+		// word classes (isLineBreak, isParagraphBreak, isAutoLineBreak): predicates over a string
+		for _, p := range g.Params[1:] {
+			if types.Identical(p.Type(), types.Typ[types.String]) {
+				return true
+			}
+		}
 	}
 	return false
 }
